@@ -337,7 +337,15 @@ impl QueryServerWriteTransaction<'_> {
             // I think the filter/filter_all shouldn't matter here because the only
             // valid direct memberships should be still valid/live references, as refint
             // removes anything that was deleted even from recycled entries.
-            let f = filter_all!(f_eq(Attribute::Uuid, PartialValue::Uuid(g)));
+            //
+            // Dynamic groups are excluded: their membership is computed from their filter
+            // (the revived entry has already been re-evaluated against it above), and a static
+            // member value on a dynamic group would keep the entry a member after it stops
+            // matching the filter.
+            let f = filter_all!(f_and!([
+                f_eq(Attribute::Uuid, PartialValue::Uuid(g)),
+                f_andnot(f_eq(Attribute::Class, EntryClass::DynGroup.into()))
+            ]));
             self.internal_modify(&f, &mods)?;
         }
 
